@@ -36,8 +36,19 @@ def opBatch (j : Json) : Json :=
   match Batch.chooseBatch n (optNat j "bs") (optNat j "nb") (optNat j "rem") with
   | .error e => err (match e with | .value => "value" | .type => "type")
   | .ok c =>
-    Json.mkObj [("batchsize", toJson c.batchsize), ("num_batches", toJson c.numBatches),
-                ("remainder", toJson c.remainder), ("batches", toJson (Batch.sow c stream))]
+    let first := Batch.sow c stream
+    -- optional re-sow of `n2` settings into the sown crop: the batch files afterwards, `-1` = left from the first sow
+    let resow : List (String × Json) := match optNat j "n2" with
+      | none => []
+      | some n2 =>
+        match Batch.chooseBatch n2 (some c.batchsize) (some c.numBatches) (some c.remainder) with
+        | .error _ => [("resow", err "value")]
+        | .ok c2 =>
+          let second := Batch.sow c2 (List.range n2)
+          let stale := (first.drop second.length).map (fun b => b.map (fun _ => (-1 : Int)))
+          [("resow", Json.mkObj [("files", toJson (second.map (fun b => b.map (fun (x : Nat) => Int.ofNat x)) ++ stale))])]
+    Json.mkObj ([("batchsize", toJson c.batchsize), ("num_batches", toJson c.numBatches),
+                ("remainder", toJson c.remainder), ("batches", toJson first)] ++ resow)
 
 /-! ### symbolic results -/
 
